@@ -62,6 +62,14 @@ def generate(rng, idx, tier, variant):
         for sid, ms in subs.items():
             p, _ = S.gen_plan(rng, opts, ms, False, idx)
             p.pop('before', None)
+            if rng.random() < 0.06 and p['passes']:
+                # a non-finite value in a submodel's check variable: nothing is prescribed for it in a linker except
+                # that a period holding one has not 'moved by less than tol' and so cannot be declared solved
+                kf = rng.randrange(len(p['passes']))
+                v = [None] * len(ms['endo'])
+                v[rng.randrange(len(v))] = rng.choice(['nan', 'nan', 'inf'])
+                for kk in range(kf, len(p['passes'])):
+                    p['passes'][kk] = {'a': 'set', 'v': v}
             plans[sid] = {'*': p}
         # linker's own equations in the hooks: move its own variable, and cross-link submodels
         lplan = {'eb': [], 'ea': []}
@@ -261,6 +269,8 @@ def execute(schedule, ctx):
         cls_out = 'return' if out['kind'] == 'return' else type(out['exc']).__name__
         ctx.count('passes', sum(1 for b in bus if b[1] == 'eval'))
         ctx.count('steps', len(bus))
+        if any(not np.isfinite(x) for sm in subs.values() for r in probes.get_ctl(sm).log for x in r.get('post_endo', [])):
+            ctx.fault('nonfinite-value-in-submodel')
         selected = ids if select is None else list(select)
         unknown = [s for s in selected if s not in subs]
         if select is not None:
